@@ -344,3 +344,54 @@ func ld2addr(v ssa.Value) (*ssa.FieldAddr, bool) {
 	fa, ok := u.X.(*ssa.FieldAddr)
 	return fa, ok
 }
+
+func init() {
+	extendProp("C24", "The virtual tail never exceeds the recovered head: freezerTable.repair, which loads the tail marker from metadata that is persisted without syncing the table, stores an itemHidden value behind the outcome `itemHidden > items` of a comparison of the two counters (the clamp), besides raising it to itemOffset.", nil, func(c *Ctx) {
+		c.Rule("CLAMP/C24.virtualtail")
+		rdb := "core/rawdb"
+		f := c.Fn(rdb, "(*freezerTable).repair")
+		if f == nil {
+			return
+		}
+		c.Funcs[f] = true
+		loadOf := func(field string) VPat {
+			return func(v ssa.Value) bool {
+				v = stripConv(v)
+				if call, ok := v.(*ssa.Call); ok && len(call.Call.Args) == 1 {
+					if cal := call.Call.StaticCallee(); cal != nil && cal.Name() == "Load" {
+						if fa, ok := call.Call.Args[0].(*ssa.FieldAddr); ok {
+							return fieldAddrName(fa) == rdb+".freezerTable."+field
+						}
+					}
+				}
+				return fieldOfLoad(v) == rdb+".freezerTableMeta.virtualTail" && field == "itemHidden"
+			}
+		}
+		hidden, items := loadOf("itemHidden"), loadOf("items")
+		edges := EdgesWhere(f, Cmp(hidden, token.GTR, items))
+		for e := range EdgesWhere(f, Cmp(items, token.LSS, hidden)) {
+			edges[e] = true
+		}
+		clamped := false
+		eachInstr(f, func(in ssa.Instruction) {
+			call, ok := in.(*ssa.Call)
+			if !ok || len(call.Call.Args) != 2 {
+				return
+			}
+			cal := call.Call.StaticCallee()
+			if cal == nil || cal.Name() != "Store" {
+				return
+			}
+			fa, ok := call.Call.Args[0].(*ssa.FieldAddr)
+			if !ok || fieldAddrName(fa) != rdb+".freezerTable.itemHidden" {
+				return
+			}
+			for e := range edges {
+				if edgeDominates(e, call.Block()) {
+					clamped = true
+				}
+			}
+		})
+		c.Check(clamped, "upper-bound/(*freezerTable).repair", f.Pos(), "itemHidden is lowered when it exceeds the recovered item count", "repair never bounds the virtual tail by the recovered head: after truncateTail(n) inside the tail file (metadata written, table not synced) and a crash that loses the unsynced items up to n, the table reopens with itemHidden > items and newTable fails with EOF")
+	})
+}
